@@ -567,7 +567,17 @@ impl<'a> Exec<'a> {
             }
             Op::RemoveWeak { ks, key } => {
                 let k = ks_or_skip!(*ks);
-                let r = k.remove_weak(&keys[*key as usize]).map_err(e2s);
+                // on transactional databases the wrapper's own remove_weak on odd steps
+                let i = inst!();
+                let r = if let (1, Some(Some(w))) = (self.step_no % 2, i.opt_ks.get(*ks as usize)) {
+                    self.stats.inc("remove_weak_via_tx_keyspace");
+                    w.remove_weak(&keys[*key as usize]).map_err(e2s)
+                } else if let (1, Some(Some(w))) = (self.step_no % 2, i.sw_ks.get(*ks as usize)) {
+                    self.stats.inc("remove_weak_via_tx_keyspace");
+                    w.remove_weak(&keys[*key as usize]).map_err(e2s)
+                } else {
+                    k.remove_weak(&keys[*key as usize]).map_err(e2s)
+                };
                 self.write_result(op, r)
             }
             Op::Batch { items, dur: d } => {
@@ -831,6 +841,48 @@ impl<'a> Exec<'a> {
                 let want = model_read(self.model.map(r.ks()).unwrap(), keys, r);
                 self.stats.inc("reads");
                 self.compare("map-equivalence", &format!("{r:?}"), r.ks(), &real, &want, r)?;
+                // the transactional keyspace wrappers have read methods of their own
+                let via_wrapper = {
+                    let i = inst!();
+                    macro_rules! wr {
+                        ($w:expr) => {
+                            match r {
+                                ReadOp::Get { key, .. } => Some(match $w.get(&keys[*key as usize]) {
+                                    Ok(v) => ReadResult::Val(v.map(|v| v.to_vec())),
+                                    Err(e) => ReadResult::Err(e2s(e)),
+                                }),
+                                ReadOp::Contains { key, .. } => Some(match $w.contains_key(&keys[*key as usize]) {
+                                    Ok(v) => ReadResult::Bool(v),
+                                    Err(e) => ReadResult::Err(e2s(e)),
+                                }),
+                                ReadOp::SizeOf { key, .. } => Some(match $w.size_of(&keys[*key as usize]) {
+                                    Ok(v) => ReadResult::Size(v),
+                                    Err(e) => ReadResult::Err(e2s(e)),
+                                }),
+                                ReadOp::First { .. } => Some(match $w.first_key_value().map(kv).transpose() {
+                                    Ok(v) => ReadResult::Kv(v),
+                                    Err(e) => ReadResult::Err(e),
+                                }),
+                                ReadOp::Last { .. } => Some(match $w.last_key_value().map(kv).transpose() {
+                                    Ok(v) => ReadResult::Kv(v),
+                                    Err(e) => ReadResult::Err(e),
+                                }),
+                                _ => None,
+                            }
+                        };
+                    }
+                    if let Some(Some(w)) = i.opt_ks.get(r.ks() as usize) {
+                        wr!(w)
+                    } else if let Some(Some(w)) = i.sw_ks.get(r.ks() as usize) {
+                        wr!(w)
+                    } else {
+                        None
+                    }
+                };
+                if let Some(real2) = via_wrapper {
+                    self.stats.inc("reads_via_tx_keyspace");
+                    self.compare("map-equivalence", &format!("{r:?} through the transactional keyspace wrapper"), r.ks(), &real2, &want, r)?;
+                }
                 Ok(StepInfo::default())
             }
             Op::ViewOpen { slot, kind } => {
@@ -1517,6 +1569,57 @@ impl<'a> Exec<'a> {
                         return Err(Violation::new("map-equivalence", detail));
                     }
                 }
+            }
+            // the other accessors of an iterator item (key / value / size / conditional value)
+            if !self.is_filtered(ks) {
+                let want: Vec<(Vec<u8>, Vec<u8>)> = self.model.map(ks).unwrap().iter().map(|(a, b)| (a.clone(), b.clone())).collect();
+                let mut got_keys = vec![];
+                let mut got_vals = vec![];
+                let mut got_sizes = vec![];
+                let mut got_cond = vec![];
+                let mut err = None;
+                for g in k.iter() {
+                    match g.key() {
+                        Ok(x) => got_keys.push(x.to_vec()),
+                        Err(e) => err = Some(format!("{e:?}")),
+                    }
+                }
+                for g in k.iter().rev() {
+                    match g.value() {
+                        Ok(x) => got_vals.push(x.to_vec()),
+                        Err(e) => err = Some(format!("{e:?}")),
+                    }
+                }
+                got_vals.reverse();
+                for g in k.iter() {
+                    match g.size() {
+                        Ok(x) => got_sizes.push(x),
+                        Err(e) => err = Some(format!("{e:?}")),
+                    }
+                }
+                for g in k.iter() {
+                    // value wanted for keys of even length only
+                    match g.into_inner_if(|key| key.len() % 2 == 0) {
+                        Ok((a, b)) => got_cond.push((a.to_vec(), b.map(|x| x.to_vec()))),
+                        Err(e) => err = Some(format!("{e:?}")),
+                    }
+                }
+                let name = &self.cfg.names[ks as usize];
+                if let Some(e) = err {
+                    return Err(Violation::new("map-equivalence", format!("cross-check of iterator item accessors on {name:?} failed: {e}")));
+                }
+                let wk: Vec<Vec<u8>> = want.iter().map(|x| x.0.clone()).collect();
+                let wv: Vec<Vec<u8>> = want.iter().map(|x| x.1.clone()).collect();
+                let ws: Vec<u32> = want.iter().map(|x| x.1.len() as u32).collect();
+                let wc: Vec<(Vec<u8>, Option<Vec<u8>>)> = want.iter().map(|x| (x.0.clone(), if x.0.len() % 2 == 0 { Some(x.1.clone()) } else { None })).collect();
+                if got_keys != wk || got_vals != wv || got_sizes != ws || got_cond != wc {
+                    let which = if got_keys != wk { "key()" } else if got_vals != wv { "value()" } else if got_sizes != ws { "size()" } else { "into_inner_if()" };
+                    return Err(Violation::new(
+                        "map-equivalence",
+                        format!("cross-check of iterator item accessor {which} on {name:?}: items differ from the reference model ({} items expected)", want.len()),
+                    ));
+                }
+                self.stats.inc("guard_accessor_checks");
             }
             self.stats.max("max_tables", k.table_count() as u64);
             self.stats.max("max_blob_files", k.blob_file_count() as u64);
